@@ -112,20 +112,28 @@ def explicitStep (acc : Option (Ext α)) (pa : Arr α) : Option (Ext α) :=
         | some m => some (extMin dtMin (some m))
       else some (extMin dtMin Option.none)
 
-/-- `_get_explicit_dt_adapt` -/
-def explicitDtAdapt (arrs : List (Arr α)) : Res α :=
-  if arrs.any (fun pa => pa.dtAdapt.isSome) then
+/-- `_get_explicit_dt_adapt` with the cached `_has_dt_adapt` flag given -/
+def explicitDtAdaptWith (flag : Bool) (arrs : List (Arr α)) : Res α :=
+  if flag then
     match arrs.foldl explicitStep (some Option.none) with
     | Option.none => Res.error
     | some Option.none => Res.inf                  -- `np.inf > 0.0`
     | some (some d) => if 0 < d then Res.val d else Res.none
   else Res.none
 
-/-- `compute_time_step(dt, cfl)`; `fixedH = some h` models `fixed_h` with the
-cached `h_minimum` -/
-def computeTimeStep (sqrt : α → α) (arrs : List (Arr α)) (cfl : α)
+/-- the flag `_has_dt_adapt` as computed on the first call (and cached by the
+integrator from then on): does any array carry the property? -/
+def hasDtAdapt (arrs : List (Arr α)) : Bool := arrs.any (fun pa => pa.dtAdapt.isSome)
+
+/-- `_get_explicit_dt_adapt` (first call: the flag is computed from the arrays) -/
+def explicitDtAdapt (arrs : List (Arr α)) : Res α :=
+  explicitDtAdaptWith (hasDtAdapt arrs) arrs
+
+/-- `compute_time_step(dt, cfl)` given the outcome of `_get_explicit_dt_adapt`;
+`fixedH = some h` models `fixed_h` with the cached `h_minimum` -/
+def computeTimeStepFrom (expl : Res α) (sqrt : α → α) (arrs : List (Arr α)) (cfl : α)
     (fixedH : Option (Ext α)) : Res α :=
-  match explicitDtAdapt arrs with
+  match expl with
   | Res.val d => Res.val d
   | Res.inf => Res.inf
   | Res.error => Res.error
@@ -145,12 +153,25 @@ def computeTimeStep (sqrt : α → α) (arrs : List (Arr α)) (cfl : α)
       | Option.none => Res.none
       | some m => if m ≤ 0 then Res.none else Res.val (cfl * m)
 
-/-- `Solver._compute_timestep` (serial, adaptive): fall back to the fixed step -/
-def solverTimestep (sqrt : α → α) (arrs : List (Arr α)) (cfl undamped : α)
+/-- `compute_time_step(dt, cfl)` on the first call of an integrator -/
+def computeTimeStep (sqrt : α → α) (arrs : List (Arr α)) (cfl : α)
     (fixedH : Option (Ext α)) : Res α :=
-  match computeTimeStep sqrt arrs cfl fixedH with
+  computeTimeStepFrom (explicitDtAdapt arrs) sqrt arrs cfl fixedH
+
+/-- a later call: the `_has_dt_adapt` flag cached by the first call is reused -/
+def computeTimeStepCached (flag : Bool) (sqrt : α → α) (arrs : List (Arr α)) (cfl : α)
+    (fixedH : Option (Ext α)) : Res α :=
+  computeTimeStepFrom (explicitDtAdaptWith flag arrs) sqrt arrs cfl fixedH
+
+/-- `Solver._compute_timestep` (serial, adaptive): fall back to the fixed step -/
+def solverTimestepOf (r : Res α) (undamped : α) : Res α :=
+  match r with
   | Res.none => Res.val undamped
   | r => r
+
+def solverTimestep (sqrt : α → α) (arrs : List (Arr α)) (cfl undamped : α)
+    (fixedH : Option (Ext α)) : Res α :=
+  solverTimestepOf (computeTimeStep sqrt arrs cfl fixedH) undamped
 
 end
 end PysphVerif.AdaptDt
